@@ -274,10 +274,16 @@ def check_formats(res, recipe, root, lic_paths, rng, case):
     dirs = sorted({os.path.dirname(p) for p in covered if os.path.dirname(p)})[:2]
     sub_dirs = [d for d in dirs if os.path.isdir(os.path.join(root, d))]
     outside = os.path.dirname(root)
-    for j in range(4):
+    for j in range(5):
         pick = [p for p in covered if rng.random() < 0.5] or covered[:1]
         pick_o = [p for p in others if rng.random() < 0.4]
         pick_d = [d for d in dirs if rng.random() < 0.3]
+        if j == 4:
+            # F without any covered file: empty (xargs without input, a hook run on nothing), or non-covered files only
+            pick, pick_d = [], []
+            if rng.random() < 0.6:
+                pick_o = []
+            res.cell("lint-file-F:" + ("empty" if not pick_o else "non-covered-only"))
         where = rng.choice(["root", "sub", "outside"])
         if where == "sub" and not sub_dirs:
             where = "root"
